@@ -496,35 +496,26 @@ impl<'tcx> TyGenContext<'_, 'tcx> {
                     return_type => unreachable!("AST/HIR variant {:?} unknown.", return_type),
                 };
 
-                let layout = match ok {
-                    SuccessType::Unit => crate::js::layout::unit_size_alignment(),
+                // `DiplomatResult<T, E>` / `DiplomatOption<T>` are `#[repr(C)] struct { union { ok: T, err: E }, is_ok: bool }`:
+                // the flag sits right after the union, whose size is the larger of the two payload sizes rounded up to the
+                // larger of the two payload alignments. A unit or write success and a missing error type take no space.
+                let (ok_size, ok_align) = match ok {
                     SuccessType::OutType(ref o) => {
-                        crate::js::layout::type_size_alignment(o, self.tcx)
+                        let layout = crate::js::layout::type_size_alignment(o, self.tcx);
+                        (layout.size(), layout.align())
                     }
-                    SuccessType::Write => match return_type {
-                        ReturnType::Fallible(_, ref err) if err.is_some() => {
-                            crate::js::layout::type_size_alignment(&err.clone().unwrap(), self.tcx)
-                        }
-                        ReturnType::Fallible(_, None) | ReturnType::Nullable(_) => {
-                            crate::js::layout::unit_size_alignment()
-                        }
-                        _ => unreachable!("AST/HIR variant {:?} unknown.", return_type),
-                    },
-                    _ => unreachable!("AST/HIR variant {:?} unknown.", return_type),
+                    _ => (0, 1),
                 };
-                // Add size for checking whether or not we're a pass/fail result. And we make sure to see if our error type is bigger, so if we need to add extra width based on that:
-                let size = std::cmp::max(
-                    layout.size(),
-                    match return_type {
-                        // We already account for an error in the Write match up above:
-                        ReturnType::Fallible(_, e) if e.is_some() => {
-                            crate::js::layout::type_size_alignment(&e.clone().unwrap(), self.tcx)
-                                .size()
-                        }
-                        _ => 0,
-                    },
-                ) + 1;
-                let align = layout.align();
+                let (err_size, err_align) = match return_type {
+                    ReturnType::Fallible(_, Some(ref e)) => {
+                        let layout = crate::js::layout::type_size_alignment(e, self.tcx);
+                        (layout.size(), layout.align())
+                    }
+                    _ => (0, 1),
+                };
+                let align = std::cmp::max(ok_align, err_align);
+                // Add size for checking whether or not we're a pass/fail result.
+                let size = std::cmp::max(ok_size, err_size).next_multiple_of(align) + 1;
 
                 if requires_buf {
                     method_info.alloc_expressions.push(
